@@ -358,8 +358,34 @@ def job_nesting(tier, rng, dims):
                evaluations=cnt, distinct_nontrivial=cnt, witness=bad, native=dict(confirmed=bad is not None), sample=dict(dims=list(dims)), solver_failures_skipped=skipped)]
 
 
+def job_orderings(tier, rng):
+    """histories: boundaries for several orderings of the same local dimensions requested in ONE process, interleaved and repeated: the returned PPT boundary must be a
+    threshold of (positivity and PPT) every time, whatever dimension pair was used before (memo tables keyed too coarsely, state left behind)."""
+    bad = None; cnt = 0
+    for fam in [[(2, 3), (3, 2)], [(2, 4), (4, 2)]]:
+        D = fam[0][0] * fam[0][1]; rho0 = np.eye(D) / D
+        dms = {d: _rand_dm(rng, D, rank=int(rng.integers(2, D + 1))) for d in fam}
+        order = fam + fam[::-1] + fam
+        for k, dims in enumerate(order):
+            dm = dms[dims]; dA, dB = dims
+            try:
+                nrm = gm.dm_to_gellmann_norm(dm); unit = (dm - rho0) / nrm
+                pl, pu = ppt.get_ppt_boundary(dm, dims)
+                evp = lambda b: min(np.linalg.eigvalsh(rho0 + b * unit).min(), np.linalg.eigvalsh(_pt(rho0 + b * unit, dA, dB)).min())
+                ok = evp(pu * (1 - 1e-6)) > 0 and evp(pu * (1 + 1e-6)) < 0 and evp(pl * (1 - 1e-6)) > 0 and evp(pl * (1 + 1e-6)) < 0
+            except Exception as ex:
+                if not from_repo(ex):
+                    raise
+                ok = False
+            cnt += 1
+            if not ok and bad is None:
+                bad = dict(call_sequence=[list(d) for d in order[:k + 1]], dims=list(dims), what='get_ppt_boundary is not a threshold after earlier calls with another ordering of the dimensions')
+    return [ob(f'{PROP}.boundaries_independent_of_call_history', 'pass' if bad is None else 'refuted', tier='B', backend='native', functions=['numqi.entangle.ppt:get_ppt_boundary', 'numqi.entangle._misc:get_density_matrix_boundary'],
+               evaluations=cnt, distinct_nontrivial=cnt, witness=bad, native=dict(confirmed=bad is not None))]
+
+
 def jobs(tier):
-    J = [('job_core', {})]
+    J = [('job_core', {}), ('job_orderings', {})]
     for dims in [(2, 2), (2, 3), (3, 3), (2, 4)]:
         J.append(('job_thresholds', dict(dims=dims)))
     for dims in ([(2, 2), (2, 3)] if tier == 'quick' else [(2, 2), (2, 3), (3, 3)]):
